@@ -1,3 +1,4 @@
+import GoRedisModel.Proofs.SourceFacts
 import GoRedisModel.Proofs.Frames
 /-! # C04 — the reply stream is always well-formed RESP, whatever clients or handlers supply -/
 namespace GoRedis
@@ -57,5 +58,11 @@ example : ∃ bs, writes (serve (fun _ => none) {} false b!"*1\r\n$10\r\nfoo\r\n
   have : w.length = 1 := by rw [← hw]; rfl
   match w, this with
   | [bs], _ => exact ⟨bs, rfl, h bs (by simp)⟩
+
+/-- **The source is the one the model was written from** (regenerated on every run): the connection loop (`serveConn`, `receive`, `dispatch`, `handleMessage`, `responseMessage`, `executeCommand`, `upperASCII`) of the current source
+have the fingerprints recorded in the model; a change to any of them means the theorems above are not shown for the code
+as it is now, until the model has been compared with it again -/
+theorem C04_source_conn_loop_is_the_modelled_one :
+    connLoopModelled.all (fun e => Generated.serverFingerprints.contains (e.1, e.2.1)) = true := source_conn_loop_is_the_modelled_one
 
 end GoRedis
